@@ -1,5 +1,6 @@
 import WindVerif.Model.TmpPool
 import WindVerif.Model.TmpPoolCtx
+import WindVerif.Model.TmpPoolRefuse
 import WindVerif.Model.FilePoolFail
 import WindVerif.Drv.Common
 namespace WindVerif.Drv
@@ -13,6 +14,7 @@ structure TPState where
   pool : Pool
   fp   : FilePoolFail.FP   -- FilePool: the model with files that cannot be opened (`Model/FilePoolFail.lean`)
   last : List Nat           -- FilePool: the handles the last successful `fp_enter` put into the mapping, one per given path
+  prot : List Path := []    -- TmpPool: paths whose removal the OS refuses for now (`Model/TmpPoolRefuse.lean`)
 
 def bit (b : Bool) : String := if b then "1" else "0"
 
@@ -38,19 +40,23 @@ def tmppoolStep (st : TPState) (ws : List String) : TPState × String :=
   let s := st.pool
   let fin (s' : Pool) (r : String) : TPState × String := ({ st with pool := s' }, r ++ " " ++ tpDump s')
   match ws with
-  | ["new"] => fin Pool.new "ok"
+  | ["new"] => ({ st with pool := Pool.new, prot := [] }, "ok " ++ tpDump Pool.new)
   | ["create", pid] => match pid.toNat? with
     | some pid => (match s.create pid with | .ok (s', p) => fin s' s!"ret {p}" | .error e => fin s s!"err {tpErr e}")
     | none => (st, "bad-op")
   | ["remove", pid, p] => match pid.toNat?, p.toNat? with
     | some pid, some p =>
-      -- the file is gone even when the list operation raises
-      (match s.remove pid p with
-        | .ok s' => fin s' "ok"
-        | .error e => fin { s with fs := s.fs.filter (· ≠ p) } s!"err {tpErr e}")
+      -- a refused `os.remove` (only after `protect`): nothing changes (`removeR_refused_iff`); otherwise the old answers
+      -- (`removeR_not_refused`): the file is gone even when the list operation raises
+      (match (TmpPoolRefuse.removeR ⟨s, st.prot⟩ pid p).2 with
+        | .refused => fin s "err PermissionError"
+        | _ =>
+          match s.remove pid p with
+          | .ok s' => fin s' "ok"
+          | .error e => fin { s with fs := s.fs.filter (· ≠ p) } s!"err {tpErr e}")
     | _, _ => (st, "bad-op")
   | ["flush", pid] => match pid.toNat? with
-    | some pid => (match s.flush pid with | .ok s' => fin s' "ok" | .error e => fin s s!"err {tpErr e}")
+    | some pid => flushStep pid
     | none => (st, "bad-op")
   | ["fork", pid] => match pid.toNat? with
     | some pid => (match s.fork pid with | .ok (s', c) => fin s' s!"ret {c}" | .error e => fin s s!"err {tpErr e}")
@@ -68,8 +74,22 @@ def tmppoolStep (st : TPState) (ws : List String) : TPState × String :=
     | some 0 => fin (TmpPoolCtx.enterFresh false s) "ok"
     | some 1 => fin (TmpPoolCtx.enterFresh true s) "ok"
     | _ => (st, "bad-op")
-  | ["exit"] => (match s.exit with | .ok s' => fin s' "ok" | .error e => fin s s!"err {tpErr e}")
-  | ["raise"] => (match s.exit with | .ok s' => fin s' "ok" | .error e => fin s s!"err {tpErr e}")
+  | ["exit"] => flushStep 0
+  | ["raise"] => flushStep 0
+  -- `protect p`: from now on the OS refuses to remove `p` (read-only directory); `unprotect_all`: removals are allowed again
+  | ["protect", p] => match p.toNat? with
+    | some p => ({ st with prot := (TmpPoolRefuse.protect ⟨s, st.prot⟩ p).prot }, "ok " ++ tpDump s)
+    | none => (st, "bad-op")
+  | ["unprotect_all"] => ({ st with prot := (TmpPoolRefuse.unprotectAll ⟨s, st.prot⟩).prot }, "ok " ++ tpDump s)
+  -- the seeded variant of `remove` (unlist first, then unlink), for the search
+  | ["remove_unlist_first", pid, p] => match pid.toNat?, p.toNat? with
+    | some pid, some p =>
+      (match TmpPoolRefuse.removeUnlistFirst ⟨s, st.prot⟩ pid p with
+        | (s', .ok) => fin s'.pool "ok"
+        | (s', .refused) => fin s'.pool "err PermissionError"
+        | (s', .valueError) => fin s'.pool "err ValueError"
+        | (s', .badProcess) => fin s'.pool "err BadProcess")
+    | _, _ => (st, "bad-op")
   | "fp_new" :: fs => match parseNatsTP fs with
     | some l => ({ st with fp := FilePoolFail.FP.new l [], last := [] }, "ok")
     | none => (st, "bad-op")
@@ -91,12 +111,20 @@ def tmppoolStep (st : TPState) (ws : List String) : TPState × String :=
   | ["fp_raise"] => fpExitStep st
   | _ => (st, "bad-op")
 where
+  /-- `flush()` by `pid` (`exit` / `raise`: by the owner): refused at the first protected existing file — the files before it are
+  gone, the list is as it was (`flush_refused_keeps_list`); otherwise the old answers (`flushR_ok`, `flushR_not_refused`) -/
+  flushStep (pid : Nat) : TPState × String :=
+    let s := st.pool
+    let fin (s' : Pool) (r : String) : TPState × String := ({ st with pool := s' }, r ++ " " ++ tpDump s')
+    match TmpPoolRefuse.flushR ⟨s, st.prot⟩ pid with
+    | (s', .refused) => fin s'.pool "err PermissionError"
+    | _ => (match s.flush pid with | .ok s' => fin s' "ok" | .error e => fin s s!"err {tpErr e}")
   parseNatsTP : List String → Option (List Nat)
     | [] => some []
     | w :: r => match w.toNat?, parseNatsTP r with
       | some i, some l => some (i :: l)
       | _, _ => none
 
-def tmppoolMachine : Machine := { σ := TPState, init := ⟨Pool.new, FilePoolFail.FP.new [] [], []⟩, step := tmppoolStep }
+def tmppoolMachine : Machine := { σ := TPState, init := ⟨Pool.new, FilePoolFail.FP.new [] [], [], []⟩, step := tmppoolStep }
 
 end WindVerif.Drv
